@@ -151,6 +151,10 @@ theorem agreeOff_trans {t : Fin k → Fin n} {x y z : Bits n} (h1 : agreeOff x y
 
 end Bits
 
+/-- first `d` bits / last `n` bits of a `(d+n)`-qubit index -/
+def Bits.head {n : Nat} (d : Nat) (x : Bits (d + n)) : Bits d := fun i => x (Fin.castAdd n i)
+def Bits.tail {n : Nat} (d : Nat) (x : Bits (d + n)) : Bits n := fun i => x (Fin.natAdd d i)
+
 /-! ### controls -/
 
 theorem ctrlOn_iff {n : Nat} (isCtrl : Fin n → Bool) (x : Bits n) :
